@@ -81,8 +81,17 @@ class LeanDriver:
 
 
 def lake_build(targets, timeout=3600):
-    p = subprocess.run(["lake", "build"] + list(targets), cwd=LEAN_DIR, capture_output=True,
-                       text=True, timeout=timeout)
+    """`lake build` of the given modules, serialised across the checks of different properties that
+    run at the same time (two concurrent builds of one module can trample each other's outputs)"""
+    import fcntl
+    os.makedirs(os.path.join(LEAN_DIR, ".lake"), exist_ok=True)
+    with open(os.path.join(LEAN_DIR, ".lake", "verif_build.lock"), "w") as lock:
+        fcntl.flock(lock, fcntl.LOCK_EX)
+        try:
+            p = subprocess.run(["lake", "build"] + list(targets), cwd=LEAN_DIR, capture_output=True,
+                               text=True, timeout=timeout)
+        finally:
+            fcntl.flock(lock, fcntl.LOCK_UN)
     return p.returncode == 0, p.stdout + p.stderr
 
 
